@@ -206,6 +206,22 @@ def handle (j : Json) : Json :=
   | "join" =>
     let m := pathJoin ((jstrs (jget j "elems")).map String.toList)
     verdict id (jstr (jget impl "path") == S m) (Json.str (S m)) [] "join"
+  | "suffix" =>
+    -- names generated as create.go does, with the real utils.RandomString(6)
+    let w := wOfJson ((jarr (jget j "world")).headD Json.null)
+    let src := (jstr (jget impl "alphabet_src")).toList
+    let seen := (jstr (jget impl "alphabet_seen")).toList
+    let samples := jarr (jget impl "samples")
+    -- model = implementation on every reported sample
+    let sampleAgree := samples.all fun sm =>
+      match parseName (makeName w.app w.entry (jstr (jget sm "sfx")).toList) with
+      | some (a, e, i) => !jbool (jget sm "err") && jstr (jget sm "app") == S a && jstr (jget sm "entry") == S e && jstr (jget sm "ident") == S i
+      | none => jbool (jget sm "err")
+    let alphaAgree := src == suffixLetters && seen.all (fun c => suffixLetters.contains c)
+    let okAlpha := decide (SuffixAlphabetOK src) && decide (SuffixAlphabetOK seen) && !src.isEmpty
+    let failed := jnat (jget impl "failed")
+    let spec := (if okAlpha then [] else ["C24:suffix-alphabet"]) ++ (if failed == 0 then [] else ["C24:parse-back:generated-suffix"])
+    verdict id (sampleAgree && alphaAgree && (failed == 0 || !okAlpha)) (Json.mkObj [("alphabet", S suffixLetters)]) spec "suffix"
   | "world" => handleWorld j
   | _ => verdict id false Json.null [] "unknown-op"
 end NamesO
